@@ -148,6 +148,30 @@ def tail_errors(out):
     return '\n'.join(lines[-60:])[-6000:]
 
 
+def apalache_inductive(ctx, module, inv='IndInv', init='Init', indinit='IndInit', cinit='ConstInit', timeout=600):
+    """Unbounded design-level argument: Init => Inv (length 0) and
+    Inv /\\ Next => Inv' (length 1) with Apalache. A failure is a defect of the
+    specification (infrastructure error), like a failing TLC design check."""
+    t = time.time()
+    wd = os.path.join(ctx.work, 'apalache')
+    os.makedirs(wd, exist_ok=True)
+    shutil.copy(os.path.join(ctx.specdir, module), wd)
+    res = []
+    for ini, length in ((init, 0), (indinit, 1)):
+        cmd = ['apalache-mc', 'check', '--cinit=' + cinit, '--init=' + ini, '--inv=' + inv, '--length=%d' % length, module]
+        try:
+            p = subprocess.run(cmd, cwd=wd, stdout=subprocess.PIPE, stderr=subprocess.STDOUT, text=True, timeout=timeout)
+        except subprocess.TimeoutExpired:
+            raise Infra('apalache timed out: ' + ' '.join(cmd))
+        ok = 'The outcome is: NoError' in p.stdout
+        res.append(dict(cmd=' '.join(cmd), outcome='NoError' if ok else 'Error'))
+        if not ok:
+            raise Infra('apalache: %s is not inductive in %s:\n%s' % (inv, module, p.stdout[-1500:]))
+    shutil.rmtree(wd, ignore_errors=True)
+    log('  APALACHE %s: %s inductive for all integer sizes (2 obligations), %.1fs' % (module, inv, time.time() - t))
+    return res
+
+
 _OPS = re.compile(r'^<<"VERIF_OPS", "(.*)">>$')
 _HOT = re.compile(r'^<<"VERIF_HOT", "(.*)">>$')
 
